@@ -12,7 +12,8 @@ BOUNDS = {
     'quick': 'relation mode: <= 3 x 3 words with the word-match relation a symbolic Boolean matrix (covers every equality '
              'pattern, repeated words, case folding); text mode: <= 3 x 3 one-letter words over symbolic ASCII letters with '
              'ignore_case symbolic, plus layouts with leading/trailing/multiple ASCII whitespace; words mode: 1-2 words of 1-2 letters per side over {a, A, b} or '
-             '{ä, Ä, ö} (a word can be a proper prefix of another; non-ASCII case folding); edited_words on the same texts',
+             '{ä, Ä, ö} (a word can be a proper prefix of another; non-ASCII case folding), and the Kelvin sign U+212A against {k, K, j} '
+             '(case folding that changes the UTF-8 length); edited_words on the same texts',
     'thorough': 'same with <= 4 x 4 words (relation mode) and 3 x 4 (text mode)',
 }
 OUTSIDE = ['non-ASCII whitespace inside texts (the code splits on ASCII whitespace only)', 'words longer than two '
@@ -42,6 +43,8 @@ def shapes(tier):
     for wa, wb in lays:
         for alpha in ('ascii', 'latin1'):
             out.append({'mode': 'words', 'wa': wa, 'wb': wb, 'la': len(wa), 'lb': len(wb), 'alpha': alpha})
+    for wa, wb in [([1], [1]), ([1, 1], [1])] + ([([1, 1], [1, 1])] if tier != 'quick' else []):
+        out.append({'mode': 'words', 'wa': wa, 'wb': wb, 'la': len(wa), 'lb': len(wb), 'alpha': 'kelvin'})
     # free mode: texts of fully symbolic characters (any scalar value of the width class, so also every kind of
     # whitespace): words are found by an independent split on ASCII whitespace
     fw = [([1, 1, 1], [1, 1, 1]), ([1, 2, 1], [1, 1, 1]), ([1, 1, 1], [1, 3, 1]), ([1, 1], [1]), ([1], [1, 2]),
@@ -96,17 +99,23 @@ def run_free(ctx, shape, opts):
 
 
 ALPHA = {'ascii': (1, [0x61, 0x41, 0x62]), 'latin1': (2, [0xE4, 0xC4, 0xF6])}
+# alphabet `kelvin`: case folding that changes the UTF-8 length.  The a side is the Kelvin sign U+212A (3 bytes, lowercase k),
+# the b side ranges over {k, K, j}; a singleton alphabet is made concrete after the assumption (the case model needs it)
+ALPHA2 = {'kelvin': ((3, [0x212A]), (1, [0x6B, 0x4B, 0x6A]))}
 
 
 def run_words(ctx, shape, opts):
     m = ctx.m
-    w, alpha = ALPHA[shape['alpha']]
+    sides = ALPHA2[shape['alpha']] if shape['alpha'] in ALPHA2 else (ALPHA[shape['alpha']], ALPHA[shape['alpha']])
 
     def words(name, lens):
+        w, alpha = sides[0 if name == 'a_words' else 1]
         chars = ctx.in_string(name, [w] * sum(lens)).chars()
-        for c in chars:
+        for k, c in enumerate(chars):
             if not isinstance(c.v, int):
                 ctx.assume(z3.Or([c.v == v for v in alpha]))
+                if len(alpha) == 1:
+                    chars[k] = Int(alpha[0], 'char', w)
         out, k = [], 0
         for n in lens:
             out.append(chars[k:k + n])
@@ -120,7 +129,7 @@ def run_words(ctx, shape, opts):
     b = mkstr(ctx, layout_text(wb, 0))
     res = m.call('match_words', a, b, ic)
     ctx.out('match', res)
-    low = {0x41: 0x61, 0xC4: 0xE4}
+    low = {0x41: 0x61, 0xC4: 0xE4, 0x4B: 0x6B, 0x212A: 0x6B}
 
     def lower(c):
         if isinstance(c.v, int):
@@ -390,7 +399,8 @@ def _words_case(a, b, ic, alpha):
             {'a_words': [ord(c) for w in a for c in w], 'b_words': [ord(c) for w in b for c in w], 'ignore_case': ic})
 
 
-FIXED_CASES = [_words_case(['a', 'b'], ['a', 'bA'], False, 'ascii'), _words_case(['Ää'], ['ää'], True, 'latin1'),
+FIXED_CASES = [_words_case(['\u212a'], ['k'], True, 'kelvin'), _words_case(['\u212a', '\u212a'], ['K'], True, 'kelvin'),
+               _words_case(['a', 'b'], ['a', 'bA'], False, 'ascii'), _words_case(['Ää'], ['ää'], True, 'latin1'),
                _words_case(['ä', 'Ä'], ['Ä', 'äö'], True, 'latin1'), _text_case('abc', 'abc', False), _text_case('abc', 'Abd', True), _text_case('aba', 'bab', False, 1),
                _text_case('', 'ab', False), _text_case('ab', '', True, 1)]
 
